@@ -468,7 +468,9 @@ func (e *EdgeQuery) findEdgesInternal(target distanceTarget, opts *queryOptions)
 	// so that a target reused after a query with a larger error, such as
 	// IsDistanceLess, does not keep using that error.
 	usesMaxError := e.target.setMaxError(opts.maxError)
-	targetUsesMaxError := opts.maxError != target.distance().zero().chordAngle() && usesMaxError
+	// maxError is a difference of distances, so "no error" is a zero angle for
+	// closest- and furthest-edge queries alike.
+	targetUsesMaxError := opts.maxError != 0 && usesMaxError
 
 	// Note that we can't compare maxError and distanceLimit directly
 	// because one is a Delta and one is a Distance. Instead we subtract them.
